@@ -204,8 +204,6 @@ def _poly(tdgl, spec, name):
 
 def gen_trace(tdgl, args, tmp):
     """Build the device, generate the mesh, record the one-state trace."""
-    from shapely.geometry import LinearRing, Point
-
     xi = float(args.get("xi", 1.0))
     layer = tdgl.Layer(coherence_length=xi, london_lambda=2.0 * xi, thickness=0.1)
     film = _poly(tdgl, args["film"], "film")
@@ -223,12 +221,24 @@ def gen_trace(tdgl, args, tmp):
         dev.make_mesh(**args.get("mesh", {}))
     except Exception as ex:
         return {"kind": "refused", "exc": type(ex).__name__, "msg": str(ex)[:160], "key": key}
+    return observe_device(dev, key, full=True)
+
+
+def observe_device(dev, key, full=True):
+    """The quantised one-state record of a meshed device against ITS OWN film, holes and terminals.
+    full=False leaves out the per-site / per-edge comparison with the reference formulas."""
+    from shapely.geometry import LinearRing, Point
+    from shapely.geometry import Polygon as SPolygon
+
+    film, holes, terms = dev.film, list(dev.holes), list(dev.terminals)
+    xi = float(dev.coherence_length.magnitude)
     m = dev.mesh
     pts = np.asarray(dev.points, dtype=float)           # length units
     tri = np.asarray(dev.triangles, dtype=int)
     edges = np.asarray(dev.edges, dtype=int)
     nsites = len(pts)
-    lo, hi = pts.min(axis=0), pts.max(axis=0)
+    allp = np.vstack([pts, np.asarray(film.points)])     # the mesh AND the device's own outline (they may be apart)
+    lo, hi = allp.min(axis=0), allp.max(axis=0)
     c0 = (lo + hi) / 2
     U = 1000.0                                            # quanta per length unit
     span = float((hi - lo).max())
@@ -256,8 +266,22 @@ def gen_trace(tdgl, args, tmp):
     g["OS"] = [bool(on(p)) for p in pts]
     g["OE"] = [bool(on((pts[a] + pts[b]) / 2)) for a, b in edges]
     g["A"] = [int(round(a * U * U)) for a in dev.areas]
+    domain = SPolygon(film.points, [h.points for h in holes])
+    g["TIN"] = [bool(domain.contains(Point(*pts[list(t)].mean(axis=0)))) for t in tri]
     g["OUT"] = [[q(p) for p in film.points[:-1]]] + [[q(p) for p in h.points[:-1]] for h in holes]
     g["PER"] = int(round(sum(r.length for r in rings) * U)) + 1
+    g["TERM"] = []
+    elen = np.asarray(dev.edge_lengths)
+    if terms:
+        belen = elen[sorted(bset)]
+        info = {ti.name: ti for ti in dev.terminal_info()}
+        for t in terms:
+            cover = film.polygon.exterior.intersection(t.polygon).length
+            g["TERM"].append({"len": int(round(float(info[t.name].length) * U)), "cover": int(round(cover * U)),
+                              "maxedge": int(round(float(belen.max()) * U))})
+    g["stats"] = {"sites": nsites, "triangles": len(tri), "edges": len(edges), "U": U}
+    if not full:
+        return g
     # reference formulas on the device coordinates (length units); the code's areas are Device.areas
     redges, W, rarea, wc, ereg, _ = ref_cot(pts, tri)
     pos = {e: n for n, e in enumerate(redges)}
@@ -272,7 +296,6 @@ def gen_trace(tdgl, args, tmp):
     g["SITE"] = [{"wc": bool(wc[i]), "a": _q(dareas[i], sa), "c": _q(rarea[i], sa)} for i in range(nsites)]
     ctr = np.asarray(em.centers) * xi
     dirs = np.asarray(em.directions) * xi
-    elen = np.asarray(dev.edge_lengths)
     g["EDGE"] = []
     for n, (a, b) in enumerate(edges):
         k = pos.get((min(int(a), int(b)), max(int(a), int(b))))
@@ -281,14 +304,6 @@ def gen_trace(tdgl, args, tmp):
                           "dx": int(round(dirs[n][0] * U)), "dy": int(round(dirs[n][1] * U)),
                           "cx2": int(round(2 * (ctr[n][0] - c0[0]) * U)), "cy2": int(round(2 * (ctr[n][1] - c0[1]) * U)),
                           "len": int(round(elen[n] * U))})
-    g["TERM"] = []
-    if terms:
-        belen = elen[sorted(bset)]
-        info = {ti.name: ti for ti in dev.terminal_info()}
-        for t in terms:
-            cover = film.polygon.exterior.intersection(t.polygon).length
-            g["TERM"].append({"len": int(round(float(info[t.name].length) * U)), "cover": int(round(cover * U)),
-                              "maxedge": int(round(float(belen.max()) * U))})
     g["stats"] = {"sites": nsites, "triangles": len(tri), "edges": len(edges), "well_centred_sites": int(wc.sum()),
                   "regular_edges": int(ereg.sum()), "U": U}
     return g
@@ -297,8 +312,142 @@ def gen_trace(tdgl, args, tmp):
 def strip_trace(t):
     if t["kind"] == "exact":
         return {"kind": "exact", "P": t["P"], "T": t["T"], "ob": {k: v for k, v in t["ob"].items() if k != "msg"}}
-    keep = ("kind", "holes", "P", "T", "E", "ET", "B", "BS", "OS", "OE", "A", "OUT", "PER", "tol", "SITE", "EDGE", "TERM")
+    if t["kind"] == "hist":
+        return {"kind": "hist", "ev": [{"op": e["op"], "d": e["d"], "res": e["res"], "has": e["has"],
+                                        "gs": [strip_placed(g) for g in e["gs"]]} for e in t["ev"]]}
+    keep = ("kind", "holes", "P", "T", "E", "ET", "B", "BS", "OS", "OE", "A", "OUT", "PER", "tol", "SITE", "EDGE", "TERM", "TIN")
     return {k: t[k] for k in keep}
+
+
+def strip_placed(g):
+    return {k: g[k] for k in ("dev", "holes", "P", "T", "E", "B", "BS", "OS", "OE", "OUT", "PER", "TERM", "TIN")}
+
+
+# ------------------------------------------------------------------ histories of Device operations (spec/DevHeap.tla)
+
+HOPS = ["copy", "deepcopy", "shallowcopy", "translatein", "translateout", "rotate", "scale", "enter", "exit", "makemesh"]
+HACTION = {"copy": "ACopy", "deepcopy": "ADeepCopy", "shallowcopy": "AShallowCopy", "translatein": "ATranslateIn",
+           "translateout": "ATranslateOut", "rotate": "ARotate", "scale": "AScale", "enter": "AEnter", "exit": "AExit",
+           "makemesh": "AMakeMesh"}
+HCLAUSES = ["MeshMatchesOwnOutline", "ResultShape"]
+HDIAG = ["D_Orientation", "D_BoundaryIsOutline", "D_TrianglesTileOwnFilm", "D_Euler", "D_Terminals"]
+
+
+def heap_cfg(b, invariants, export=False, rebuild=True, view=True):
+    return ("CONSTANTS\n MaxDevs = %d\n MaxOps = %d\n HOps = {%s}\n ShiftX = 5\n ShiftY = 3\n MRebuild = %s\n HExport = %s\n" % (
+        b["MaxDevs"], b["MaxOps"], ", ".join('"%s"' % o for o in b["HOps"]), "TRUE" if rebuild else "FALSE",
+        "TRUE" if export else "FALSE") + "SPECIFICATION HSpec\n" + "".join(f"INVARIANT {i}\n" for i in invariants)
+        + "CHECK_DEADLOCK FALSE\n" + ("VIEW hview\n" if view else ""))
+
+
+def heap_trace_cfg(invariants=()):
+    return ('CONSTANTS\n MaxDevs = 99\n MaxOps = 99\n HOps = {}\n ShiftX = 5\n ShiftY = 3\n MRebuild = TRUE\n HExport = FALSE\n'
+            ' BasisIds = {}\n Families = {}\n Offsets = {}\nSPECIFICATION TSpec\nINVARIANT Accepted\n'
+            + "".join(f"INVARIANT {i}\n" for i in invariants) + "CHECK_DEADLOCK FALSE\n")
+
+
+def parse_histories(r):
+    """DevHeap!HEmit prints every chain (prefix-closed).  Returns all of them, de-duplicated."""
+    out, seen = [], set()
+    for line in r.printed():
+        if line.startswith('"['):
+            c = json.loads(json.loads(line))
+            k = json.dumps([[o["op"], o["d"]] for o in c])
+            if k not in seen:
+                seen.add(k)
+                out.append(c)
+    return out
+
+
+def hist_key(chain, dev):
+    return dev + ": " + " ; ".join(f"{o['op']}({o['d']})" for o in chain)
+
+
+HIST_DEVICES = {
+    "barhole": dict(film=dict(kind="box", w=4, h=2, points=24), holes=[dict(kind="circle", r=0.4, points=10, center=(0.3, 0.1))],
+                    terminals=[dict(kind="box", w=0.2, h=2, center=(-2, 0)), dict(kind="box", w=0.2, h=1.2, center=(2, 0.2))],
+                    mesh=dict(max_edge_length=0.9), xi=1.0),
+    "ellipse": dict(film=dict(kind="ellipse", a=2, b=1.2, points=26, center=(0.5, -0.25)), holes=[], terminals=[],
+                    mesh=dict(max_edge_length=0.8), xi=0.5),
+}
+
+
+def hist_trace(tdgl, args, tmp):
+    """Execute one exported chain of Device operations on real meshed devices; after every operation record, for
+    every live device, mesh / no mesh and the mesh against the device's OWN film, holes and terminals."""
+    import copy as pycopy
+
+    spec = HIST_DEVICES[args["device"]]
+    xi = float(spec["xi"])
+    layer = tdgl.Layer(coherence_length=xi, london_lambda=2.0 * xi, thickness=0.1)
+    film = _poly(tdgl, spec["film"], "film")
+    holes = [_poly(tdgl, h, f"hole{k}") for k, h in enumerate(spec["holes"])]
+    terms = [_poly(tdgl, t, f"term{k}") for k, t in enumerate(spec["terminals"])]
+    d0 = tdgl.Device("dev", layer=layer, film=film, holes=holes, terminals=terms)
+    d0.make_mesh(**spec["mesh"])
+    devs = [d0]
+    dx, dy = args.get("shift", (1.25, -0.75))
+    key = hist_key(args["chain"], args["device"])
+    ctxs = []
+
+    def snapshot(op, d, res):
+        gs = []
+        for k, dv in enumerate(devs):
+            if dv.mesh is not None:
+                g = observe_device(dv, key, full=False)
+                g["dev"] = k + 1
+                gs.append(g)
+        return {"op": op, "d": d, "res": res, "has": [dv.mesh is not None for dv in devs], "gs": gs}
+
+    def ident(r):
+        for k, dv in enumerate(devs):
+            if dv is r:
+                return k + 1
+        devs.append(r)
+        return len(devs)
+
+    ev = [snapshot("new", 0, 1)]
+    refused = None
+    try:
+        for o in args["chain"]:
+            op, D = o["op"], devs[o["d"] - 1] if o["d"] else None
+            if op == "copy":
+                r = D.copy()
+            elif op == "deepcopy":
+                r = pycopy.deepcopy(D)
+            elif op == "shallowcopy":
+                r = pycopy.copy(D)
+            elif op == "translatein":
+                r = D.translate(dx, dy, inplace=True)
+            elif op == "translateout":
+                r = D.translate(dx, dy)
+            elif op == "rotate":
+                r = D.rotate(90)
+            elif op == "scale":
+                r = D.scale(xfact=-1, yfact=1)
+            elif op == "makemesh":
+                try:
+                    D.make_mesh(**spec["mesh"])
+                except (ValueError, AssertionError) as ex:      # the code refuses this mesh (DESIGN.md D15): the history ends here
+                    refused = f"{type(ex).__name__}: {str(ex)[:80]}"
+                    break
+                r = D
+            elif op == "enter":
+                cm = D.translation(dx, dy)
+                cm.__enter__()
+                ctxs.append((cm, D))
+                r = D
+            elif op == "exit":
+                cm, r = ctxs.pop()
+                cm.__exit__(None, None, None)
+            else:
+                raise ValueError(op)
+            ev.append(snapshot(op, o["d"], ident(r)))
+    finally:
+        while ctxs:                       # leave every open translation() context (not part of the recorded history)
+            ctxs.pop()[0].__exit__(None, None, None)
+    return {"kind": "hist", "key": key, "ev": ev, "chain": args["chain"], "device": args["device"],
+            "sites": ev[0]["gs"][0]["stats"]["sites"], "truncated_by_refusal": refused}
 
 
 # ------------------------------------------------------------------ crash-proof execution of the real code
@@ -377,8 +526,8 @@ def _runner_main(argv):
 # ------------------------------------------------------------------ parallel batch validation
 
 
-def validate_parallel(ctx, traces, what, nthreads=6, chunk=None):
-    """Validate one-state traces with MeshGeomTrace in parallel TLC runs; returns the accepted indices."""
+def validate_parallel(ctx, traces, what, nthreads=6, chunk=None, module="MeshGeomTrace", cfg=None):
+    """Validate traces with a trace module in parallel TLC runs; returns the accepted indices."""
     import concurrent.futures as cf
     import re
 
@@ -388,13 +537,13 @@ def validate_parallel(ctx, traces, what, nthreads=6, chunk=None):
     parts = [(k, traces[k:k + chunk]) for k in range(0, len(traces), chunk)]
     tdir = ctx.tmp / "traces"
     tdir.mkdir(exist_ok=True)
-    cfg = trace_cfg()
+    cfg = cfg or trace_cfg()
 
     def one(part):
         k, ts = part
         tf = tdir / f"{what}_{k}.json"
         tf.write_text(json.dumps([strip_trace(t) for t in ts]))
-        r = core.run_tlc("MeshGeomTrace", cfg, ctx.tmp / f"tlc_{what}_{k}", workers=1, env={"TRACE_FILE": str(tf)}, heap="2g",
+        r = core.run_tlc(module, cfg, ctx.tmp / f"tlc_{what}_{k}", workers=1, env={"TRACE_FILE": str(tf)}, heap="2g",
                          java_opts=("-XX:TieredStopAtLevel=1", "-XX:ParallelGCThreads=2"))
         return k, len(ts), r
 
@@ -402,11 +551,11 @@ def validate_parallel(ctx, traces, what, nthreads=6, chunk=None):
     with cf.ThreadPoolExecutor(nthreads) as ex:
         results = list(ex.map(one, parts))
     for k, n, r in results:
-        ctx.cov["models"].append({"model": f"MeshGeomTrace[{what} {k}..{k + n - 1}] (trace validation)", "traces": n,
+        ctx.cov["models"].append({"model": f"{module}[{what} {k}..{k + n - 1}] (trace validation)", "traces": n,
                                   "distinct_states": r.distinct, "states_generated": r.generated, "wall_s": round(r.wall, 2),
                                   "violated": r.violated})
         if r.errors or (not r.finished and not r.violated):
-            raise core.MachineryFailure(f"MeshGeomTrace[{what}]: TLC failed on traces: {r.errors[:3]}\n{r.out[-3000:]}")
+            raise core.MachineryFailure(f"{module}[{what}]: TLC failed on traces: {r.errors[:3]}\n{r.out[-3000:]}")
         ctx.cov["states"] += r.distinct
         ctx.cov["transitions"] += r.generated
         for line in r.printed():
